@@ -245,6 +245,15 @@ def _edits():
     def _(m): m["Node"]["fields"]["rel"]["args"]["k"]["default"] = "5"; m["A"]["fields"]["rel"]["args"]["k"]["default"] = "5"
     @ed("iface_deprecate_field", "FieldDeprecated", ["Node", "rel"])
     def _(m): m["Node"]["fields"]["rel"]["deprecated"] = "why"
+    # ... and edits of the implementing OBJECT's copy of an interface field, the interface left as it is
+    @ed("impl_deprecate_field", "FieldDeprecated", ["A", "rel"])
+    def _(m): m["A"]["fields"]["rel"]["deprecated"] = "why"
+    @ed("impl_add_opt_arg", "FieldArgumentAdded", ["A", "rel", "z"])
+    def _(m): m["A"]["fields"]["rel"]["args"]["z"] = {"type": "Int"}
+    @ed("impl_arg_default_changed", "FieldArgumentDefaultValueChange", ["A", "rel", "k"])
+    def _(m): m["A"]["fields"]["rel"]["args"]["k"]["default"] = "5"
+    @ed("impl_deprecate_id", "FieldDeprecated", ["A", "id"])
+    def _(m): m["A"]["fields"]["id"]["deprecated"] = "why"
     return E
 
 
@@ -256,6 +265,7 @@ EXTRA_TOUCH = {
     "remove_type": [("U",), ("Query", "b")], "add_iface_field": [("A", "extra")], "add_interface": [("B", "id"), ("B", "rel"), ("Node", "rel")],
     "iface_add_opt_arg": [("A", "rel")], "iface_add_req_arg": [("A", "rel")], "iface_remove_arg": [("A", "rel")], "iface_arg_default_changed": [("A", "rel")],
     "iface_remove_field": [("A", "rel")], "iface_deprecate_field": [("A", "rel")],
+    "impl_deprecate_field": [("Node", "rel")], "impl_add_opt_arg": [("Node", "rel")], "impl_arg_default_changed": [("Node", "rel")], "add_interface": [("B", "id"), ("B", "rel"), ("Node", "rel"), ("A", "rel")],
     "change_kind": [("Query", "e")], "add_union_member": [("U",)], "remove_union_member": [("U",)],
 }
 
@@ -288,6 +298,8 @@ RETYPE_SITES = (
     ("field", "Node", "rel", "Node", "FieldChangedType"),                 # interface field (the implementing type is retyped alike)
     ("arg", "Node", "rel", "q", "[Int!]", "FieldArgumentChangedType"),     # argument of an interface field
     ("arg", "Node", "rel", "k", "Int", "FieldArgumentChangedType"),
+    ("field", "A", "rel", "Node", "FieldChangedType"),                    # the implementing object's copy only (covariant retypings keep the schema valid)
+    ("field", "A", "id", "ID!", "FieldChangedType"),
 )
 RETYPE_WRAPS = ("", "!", "[", "[!", "![", "![!", "[[", "![[!")
 
@@ -463,7 +475,7 @@ def _retype(site: int, w: int, other: bool, order: int, dflt: int = 0) -> bool:
         ow, base = split_type(old_t)
         nbase = base
         if oth:
-            nbase = {"Int": "String", "A": "B", "In": "Int", "Node": "B"}[base]
+            nbase = {"Int": "String", "A": "B", "In": "Int", "Node": "B", "ID": "String"}[base]
         new_t = join_type(nw, nbase)
         if kind == "field":
             m_new[s[1]]["fields"][s[2]]["type"] = new_t
